@@ -1152,6 +1152,17 @@ func (m *monC04) Recv(f *Flow, r *Recv) {
 	// PUBREC survives connection loss: within one process a retransmission
 	// is not returned again. (After a restart the documented window of a
 	// failed record Save allows it.)
+	// Across restarts: the PUBREC for a return goes on the wire only after
+	// the reception record was stored, so a message whose PUBREC was written
+	// is not returned again by any later incarnation on that Persistence.
+	if f.S != nil && !f.S.dead && len(f.DamagedGen) == 0 {
+		for _, x := range f.Recvs[:r.Idx] {
+			if x.Out == r.Out && x.Gen != r.Gen && x.AckWire != 0 && w.Broker.Resets == 0 {
+				w.Violate("C04", "returned-twice", "after-pubrec-restart", "ReadSlices (incarnation %d) returned message %d (%q, id %#04x) although incarnation %d had written its PUBREC at step %d, which comes after the reception record: the record was not there at the restart", r.Gen, r.Idx, trunc(r.Topic, 24), r.Out.ID, x.Gen, x.AckWire)
+				break
+			}
+		}
+	}
 	if f.S != nil && !f.S.dead {
 		for _, x := range f.Recvs[:r.Idx] {
 			if x.Out == r.Out && x.Gen == r.Gen && x.NextInvoke != 0 {
